@@ -72,7 +72,11 @@ class BaseSliver(ABC):
         self.boot_script = None # string limited in length
 
     def set_type(self, resource_type):
-        # each kind of sliver takes its type from its own vocabulary (TYPE_CLASS of the subclass)
+        # each kind of sliver takes its type from its own vocabulary (TYPE_CLASS of the subclass);
+        # a member may also be given by its published name
+        if isinstance(resource_type, str) and self.TYPE_CLASS is not None:
+            resource_type = self.type_from_str(resource_type)
+            assert resource_type is not None
         assert resource_type is None or self.TYPE_CLASS is None or isinstance(resource_type, self.TYPE_CLASS)
         self.resource_type = resource_type
 
